@@ -300,7 +300,8 @@ func c11K4(c *rt.Ctx) {
 		idx  int
 	}
 	var valParams []valParam
-	nSends := 0
+	var thrTerms []*c11X
+	nSends, nCommitSends := 0, 0
 	for _, sp := range []c11K4Spec{{"dkg.newBcastCallback", false}, {"dkg.newP2PCallback", true}} {
 		ctor := c.Fn(sp.ctor)
 		short := strings.TrimPrefix(sp.ctor, "dkg.")
@@ -386,6 +387,12 @@ func c11K4(c *rt.Ctx) {
 						return strings.HasPrefix(e.Name, "dkg/dkgpb/v1.") || strings.HasPrefix(e.Name, "app/log.") || strings.HasPrefix(e.Name, "app/z.")
 					})
 				elemChecks := []string{cons + ": source id = sender's share index", cons + ": target id", cons + ": validator index < numVals"}
+				// elements that carry Feldman commitments (the dealer's polynomial): their number fixes the degree
+				hasCommit := c11ElemHasField(sd.typ, "Commitments")
+				if hasCommit {
+					nCommitSends++
+					elemChecks = append(elemChecks, cons+": commitment count = threshold")
+				}
 				switch {
 				case ambiguous:
 					for _, k := range elemChecks {
@@ -440,9 +447,9 @@ func c11K4(c *rt.Ctx) {
 							return isC && k == j
 						}
 					}
-					srcOK, tgtOK, valOK := true, true, true
-					var srcWhy, tgtWhy, valWhy string
-					var vagueSeen [3]bool
+					srcOK, tgtOK, valOK, comOK := true, true, true, true
+					var srcWhy, tgtWhy, valWhy, comWhy string
+					var vagueSeen [4]bool
 					for j := int64(0); j < n; j++ {
 						el := isElem(j)
 						// source id == peers[sender].ShareIdx
@@ -532,11 +539,52 @@ func c11K4(c *rt.Ctx) {
 								}
 							}
 						}
+						// number of commitments == threshold (integer state of the callback, nothing computed from the message)
+						if hasCommit {
+							isCommitLen := func(x *c11X) bool {
+								if x == nil || x.Op != "len" || len(x.Args) != 1 {
+									return false
+								}
+								e, f := c11ProtoGetAny(x.Args[0])
+								return f == "Commitments" && el(e)
+							}
+							var thr *c11X
+							t, known = q.eqFact(sd.at, isCommitLen, func(x *c11X) bool {
+								if !c11IsIntState(x, M, root) {
+									return false
+								}
+								thr = x
+								return true
+							})
+							if !known || !t {
+								comOK, comWhy = false, fmt.Sprintf("element %d of the forwarded message: the number of its commitments was not found equal to the threshold on this path (a dealer may use a polynomial of another degree)", j)
+								if q.vagueCompare(sd.at, isCommitLen, M) {
+									vagueSeen[3] = true
+								}
+							} else if thr != nil {
+								dup := false
+								for _, o := range thrTerms {
+									if c11Same(o, thr) {
+										dup = true
+									}
+								}
+								if !dup {
+									thrTerms = append(thrTerms, thr)
+								}
+							}
+						}
 					}
-					for i, r := range []struct {
+					results := []struct {
 						ok  bool
 						why string
-					}{{srcOK, srcWhy}, {tgtOK, tgtWhy}, {valOK, valWhy}} {
+					}{{srcOK, srcWhy}, {tgtOK, tgtWhy}, {valOK, valWhy}}
+					if hasCommit {
+						results = append(results, struct {
+							ok  bool
+							why string
+						}{comOK, comWhy})
+					}
+					for i, r := range results {
 						if !r.ok && unknownCall {
 							agg.unsure(elemChecks[i], pos, r.why+" (the message is handed to a function the walker cannot follow before the send)")
 						} else if !r.ok && vagueSeen[i] {
@@ -622,6 +670,8 @@ func c11K4(c *rt.Ctx) {
 	if nSends == 0 {
 		c.Bail("no path of the FROST callbacks forwards a message")
 	}
+	// the value the commitment counts are compared with is the configured threshold by provenance
+	c11K4ThresholdProv(c, thrTerms, nCommitSends)
 	// the validator-count parameter of both constructors receives the same value at their call sites
 	c11K4SameBound(c, func() (out [][2]any) {
 		for _, vp := range valParams {
@@ -697,4 +747,108 @@ func c11K4SameBound(c *rt.Ctx, params [][2]any) {
 		return
 	}
 	c.Good(cons, refPos, "")
+}
+
+// c11ElemHasField: t is (a pointer to) a message struct with a repeated field whose element message has a field
+// named field.
+func c11ElemHasField(t types.Type, field string) bool {
+	if t == nil {
+		return false
+	}
+	if p, ok := t.Underlying().(*types.Pointer); ok {
+		t = p.Elem()
+	}
+	st, ok := t.Underlying().(*types.Struct)
+	if !ok {
+		return false
+	}
+	for i := 0; i < st.NumFields(); i++ {
+		sl, ok := st.Field(i).Type().Underlying().(*types.Slice)
+		if !ok || !st.Field(i).Exported() {
+			continue
+		}
+		et := sl.Elem()
+		if p, ok := et.Underlying().(*types.Pointer); ok {
+			et = p.Elem()
+		}
+		est, ok := et.Underlying().(*types.Struct)
+		if !ok {
+			continue
+		}
+		for k := 0; k < est.NumFields(); k++ {
+			if est.Field(k).Name() == field {
+				return true
+			}
+		}
+	}
+	return false
+}
+
+// c11IsIntState: x is integer state of the callback (constructor parameter, captured variable, handler field), nothing
+// computed from the message M and not an argument of the callback root itself.
+func c11IsIntState(x, M *c11X, root *ssa.Function) bool {
+	if x == nil {
+		return false
+	}
+	t := x.T
+	if t == nil && x.V != nil {
+		t = x.V.Type()
+	}
+	if t == nil || !types.Identical(t.Underlying(), types.Typ[types.Int]) || c11Contains(x, M) {
+		return false
+	}
+	switch x.Op {
+	case "param":
+		if p, isP := x.V.(*ssa.Parameter); isP && p.Parent() == root {
+			return false
+		}
+		return true
+	case "field", "var":
+		return true
+	}
+	return false
+}
+
+// c11K4ThresholdProv: every value a commitment count was compared with is, by provenance, the configured threshold
+// (the one the FROST participants are created with; decided by the TP walker).
+func c11K4ThresholdProv(c *rt.Ctx, terms []*c11X, nCommitSends int) {
+	const cons = "FROST callbacks: commitment-count bound is the configured threshold"
+	if nCommitSends == 0 {
+		c.Unsure(cons, token.NoPos, "no path of the callbacks forwards a message with Feldman commitments (round-1 casts): the handler is not reached by the path walker, e.g. it is dispatched through a table of function values")
+		return
+	}
+	if len(terms) == 0 {
+		return // the missing comparison is reported per send
+	}
+	for _, x := range terms {
+		w := &tpWalker{c: c, seen: map[ssa.Value]bool{}}
+		vd, why := tpUnsure, "the bound is not a value the rule can follow"
+		pos := token.NoPos
+		switch x.Op {
+		case "param":
+			if p, ok := x.V.(*ssa.Parameter); ok {
+				vd, why = w.param(p, 0)
+				pos = p.Pos()
+			}
+		case "field":
+			name := x.Name
+			if i := strings.LastIndex(name, "."); i >= 0 {
+				name = name[i+1:]
+			}
+			vd, why = w.field(x.Name, name, 0)
+		case "var":
+			if al, ok := x.V.(*ssa.Alloc); ok {
+				vd, why = w.alloc(al, 0)
+				pos = al.Pos()
+			}
+		}
+		switch vd {
+		case tpOK:
+			c.Good(cons, pos, "")
+		case tpBad:
+			c.Bad(cons, pos, "round-1 casts are accepted when their commitment count equals a value that is not the configured threshold: "+why)
+		default:
+			c.Unsure(cons, pos, "cannot follow the provenance of the value the commitment count is compared with: "+why)
+		}
+	}
 }
